@@ -237,7 +237,7 @@ def gen_history(ctx, thorough):
         dim, lmin, lmax = 2, 2, 4
         data = [x[:2] for x in data]
     return {"kind": "history", "dim": dim, "lmin": lmin, "lmax": lmax,
-            "max_evaluations": (r.choice([40, 80, 120]) if not thorough else r.choice([80, 150, 250])) if not big else 900,
+            "max_evaluations": (r.choice([40, 80, 120]) if not thorough else r.choice([80, 150, 250])) if not big else 600,
             "margin": r.choice(["1/2", "1/2", "3/4", "1/4"]), "rebalancing": r.random() < 0.6,
             "lam": frac_str(r.choice(c16.LAMS)), "lumped": (r.random() < 0.15), "classes": classes,
             "data": [[frac_str(c) for c in x] for x in data],
@@ -387,8 +387,24 @@ def gen_twostep(ctx, thorough):
         m = (s2[d][k] + s2[d][k + 1]) / 2
         if m.denominator <= 256:
             s2[d].insert(k + 1, m)
+    replaced = 0
+    ctx._twostep_n = getattr(ctx, "_twostep_n", 0) + 1
+    if ctx._twostep_n % 2 == 1 or r.random() < 0.3:          # the first two-step case of every run has a replaced node
+        # what a rebalancing rotation does: between the SAME two neighbours a node c is replaced by another node c' (1-2 times),
+        # next to a sample so that the hat at c' really has another right-hand side than the hat at c had
+        for _ in range(r.randint(1, 2)):
+            d = r.randrange(dim)
+            x = r.choice(data)
+            inner = list(range(1, len(s2[d]) - 1))
+            k = min(inner, key=lambda i: abs(s2[d][i] - x[d]))
+            lo, c, hi = s2[d][k - 1], s2[d][k], s2[d][k + 1]
+            c2 = r.choice([(lo + c) / 2, (c + hi) / 2, lo + (hi - lo) * F(r.choice([1, 3, 5, 7]), 8)])
+            if c2 != c and lo < c2 < hi and c2.denominator <= 1024:
+                s2[d][k] = c2
+                replaced += 1
     classes = [r.choice([-1, 1]) for _ in range(M)] if r.random() < 0.4 else None
     return {"kind": "twostep", "dim": dim, "lam": frac_str(r.choice(c16.LAMS + [F(10) ** 8])), "classes": classes, "lumped": r.random() < 0.5,
+            "replaced_nodes": replaced,
             "stripes1": [[frac_str(c) for c in s] for s in s1], "stripes2": [[frac_str(c) for c in s] for s in s2],
             "data": [[frac_str(c) for c in x] for x in data]}
 
@@ -437,6 +453,8 @@ def run_twostep(ctx, drv, case):
                         {"entries_differing": nbad, "max_abs_diff_rhs": float(np.max(np.abs(b_on[step] - b_off[step]))),
                          "max_abs_diff_surpluses": float(np.max(np.abs(s_on[step] - s_off[step])))})
             ctx.count("twostep_grid_%s" % ("ge_200" if len(br) >= 200 else "lt_200"))
+        if case.get("replaced_nodes"):
+            ctx.count("twostep_with_replaced_nodes")
         replay_on_model(ck, drv, case, off, False, "reuse-off")
     except Exception:
         ck.ok = False
@@ -619,7 +637,11 @@ def gen_urhs(ctx, thorough):
     dim = len(lv)
     M = r.choice([8, 13, 16, 32])
     data = c16.gen_data(r, dim, c16.uniform_stripes(lv), M, res=r.choice([16, 64, 128]))
-    return {"kind": "urhs", "dim": dim, "lv": lv, "lam": "0", "lumped": False,
+    # the SAME operation then works on further component grids (same dimension; other large level vectors, a small one, the
+    # first one again): node numberings differ from grid to grid
+    pool = {1: [[8], [7], [3]], 2: [[4, 4], [3, 5], [5, 3], [2, 2], [3, 2]], 3: [[3, 3, 3], [2, 3, 4], [4, 3, 2], [2, 2, 2]]}[dim]
+    more = [l for l in r.sample(pool, min(len(pool), 3)) if l != lv][:2] + [lv]
+    return {"kind": "urhs", "dim": dim, "lv": lv, "more": more, "lam": "0", "lumped": False,
             "classes": [r.choice([-1, 1]) for _ in range(M)] if r.random() < 0.8 else None,
             "data": [[frac_str(c) for c in x] for x in data]}
 
@@ -634,37 +656,42 @@ def run_urhs(ctx, drv, case):
         if drv16 is None:
             drv16 = ctx.driver("drv_c16")
             ctx._drv16 = drv16
-        lv, dim = case["lv"], case["dim"]
+        dim = case["dim"]
         data = [[F(c) for c in x] for x in case["data"]]
         classes = case["classes"]
         M = len(data)
         signs = [F(c) for c in classes] if classes is not None else [F(1)] * M
         sg = fv(signs) if classes is not None else "-"
-        stripes = c16.uniform_stripes(lv)
-        N = math.prod(2 ** l - 1 for l in lv)
-        big = N >= 200
         op = c16.mk_uniform(data, dim, F(0), False, classes)
-        op.grid.setCurrentArea(np.zeros(dim), np.ones(dim), lv)
-        b = op.calculate_B(op.data, lv)
-        tags = {"kind": "urhs", "dim": dim, "classes": classes is not None, "grid_ge_200": big}
-        bref = b_ref(stripes, data, signs)
-        if not vec_near(b, bref, 1e-12):
-            k = next(i for i in range(N) if not near(b[i], bref[i], 1e-12))
-            ck.viol("uniform-rhs-is-signed-sample-mean", tags, case, {"entry": k, "impl": float(b[k]), "sample_mean": str(bref[k])})
-        ms = parse_vec(drv16.ask("bu small %s %s %s" % (fints(lv), fvs(data), sg)))
-        ml = parse_vec(drv16.ask("bu large %s %s %s" % (fints(lv), fvs(data), sg)))
-        if ms != ml:
-            ck.corr("model: uniform rhs small path vs large path", case, [str(v) for v in ms][:6], [str(v) for v in ml][:6])
-        if not vec_near(b, ml if big else ms, 1e-12):
-            ck.corr("calculate_B (uniform, %s branch)" % ("large" if big else "small"), case, np.asarray(b).tolist()[:8], [str(v) for v in ms][:8])
-        # the small-grid branch's computation on the same grid, with the implementation's own routine
-        hats = np.array(list(itertools.product(*[range(1, 2 ** l) for l in lv])), dtype=int)
-        unweighted = op.hat_function_in_support_completely_vectorized(hats, np.array(lv, dtype=int), op.data)
-        w = np.array([float(s) for s in signs]).reshape(M, 1)
-        b_small = np.sum(w * unweighted, axis=0) * (1 / M)
-        if not vec_near(b, b_small, 1e-12):
-            k = next(i for i in range(N) if not near(b[i], b_small[i], 1e-12))
-            ck.viol("uniform-rhs-paths-agree", tags, case, {"entry": k, "calculate_B": float(b[k]), "all_hats_vectorised": float(b_small[k])})
+        for n, lv in enumerate([case["lv"]] + list(case.get("more") or [])):
+            stripes = c16.uniform_stripes(lv)
+            N = math.prod(2 ** l - 1 for l in lv)
+            big = N >= 200
+            op.grid.setCurrentArea(np.zeros(dim), np.ones(dim), lv)
+            b = op.calculate_B(op.data, lv)
+            tags = {"kind": "urhs", "dim": dim, "classes": classes is not None, "grid_ge_200": big, "position_in_sequence": n}
+            scase = dict(case, step=n)
+            bref = b_ref(stripes, data, signs)
+            if not vec_near(b, bref, 1e-12):
+                k = next(i for i in range(N) if not near(b[i], bref[i], 1e-12))
+                ck.viol("uniform-rhs-is-signed-sample-mean", tags, scase, {"entry": k, "impl": float(b[k]), "sample_mean": str(bref[k]), "lv": list(lv)})
+            ms = parse_vec(drv16.ask("bu small %s %s %s" % (fints(lv), fvs(data), sg)))
+            ml = parse_vec(drv16.ask("bu large %s %s %s" % (fints(lv), fvs(data), sg)))
+            if ms != ml:
+                ck.corr("model: uniform rhs small path vs large path", scase, [str(v) for v in ms][:6], [str(v) for v in ml][:6])
+            if not vec_near(b, ml if big else ms, 1e-12):
+                ck.corr("calculate_B (uniform, %s branch)" % ("large" if big else "small"), scase, np.asarray(b).tolist()[:8], [str(v) for v in ms][:8])
+            # the small-grid branch's computation on the same grid, with the implementation's own routine
+            hats = np.array(list(itertools.product(*[range(1, 2 ** l) for l in lv])), dtype=int)
+            unweighted = op.hat_function_in_support_completely_vectorized(hats, np.array(lv, dtype=int), op.data)
+            w = np.array([float(s) for s in signs]).reshape(M, 1)
+            b_small = np.sum(w * unweighted, axis=0) * (1 / M)
+            if not vec_near(b, b_small, 1e-12):
+                k = next(i for i in range(N) if not near(b[i], b_small[i], 1e-12))
+                ck.viol("uniform-rhs-paths-agree", tags, scase, {"entry": k, "calculate_B": float(b[k]), "all_hats_vectorised": float(b_small[k]), "lv": list(lv)})
+            ctx.count("urhs_seq_%s" % ("ge_200" if big else "lt_200"))
+        lv = case["lv"]
+        big = math.prod(2 ** l - 1 for l in lv) >= 200
         ctx.count("urhs_%s_%s" % ("ge_200" if big else "lt_200", "classes" if classes is not None else "noclasses"))
     except Exception:
         ck.ok = False
@@ -829,7 +856,7 @@ def run(ctx):
         if got != want:
             ctx.corr_break("C17/malformed-line", {"line": line}, {"model": got, "expected": want})
     run_keys(ctx, drv, 6 if not thorough else 40)
-    budget = 75 if not thorough else 480
+    budget = 75 if not thorough else 400
     # the expensive / rare kinds come early so that a slow machine still reaches them within the budget
     plan = ["history", "samestep", "urhs", "twostep", "history", "interp", "uniform", "history", "urhs", "interp", "history",
             "uniform", "interp", "history"]
